@@ -74,11 +74,16 @@ claimed = {
          "Not covered: the re-activation loop in service.start (map iteration is outside the generator's subset), the MemProvider implementation behind the trusted store interface, and that the session stores the granted rather than the requested QoS."),
    design='DESIGN.md §4 C10', technique='ghost-view contracts with frame checking; VCs over go/ssa discharged by z3/cvc5 (govc)'),
  'C06': dict(level='proof',
-   text=("Contract-based deductive proof of the topic-level scanner only (the one part of the topic store within the generator's subset): nextTopicLevel returns the bytes before the first '/' as the level and the bytes after it as the rest, "
-         "never a level containing '/', rejects '#' or '+' that do not occupy a whole level (a defect found here - a wildcard followed by '$' was accepted - was fixed), accepts '#' only as the last level and refuses a leading '$'; the Manager wrappers pass requests and answers through unchanged. "
-         "The recursive trie operations (sinsert, sremove, smatch, matchQos, rinsert, rremove, rmatch, allRetained) iterate over Go maps and recurse, which the generator does not model; they are covered by a BOUNDED stand-in, labelled bounded and not counted as proved: the real MemTopics is run exhaustively over filters of 1..3 levels over {a,b,+,#}, topics of 1..3 levels over {a,b}, two or three subscribers, subscribe/unsubscribe/re-subscribe, publish QoS 0..2 and retained insert/replace/clear (about 720000 cases) against the MQTT 4.7 matching relation (two defects found this way - '/#' not matching its parent level, clearing a retained message pruning its parent's - were fixed). Topics with empty levels or '$' are outside the bound. "
-         "A known deviation pinned by the repository's own test (an empty first level is returned as '+') is outside the obligations."),
-   design='DESIGN.md §4 C06', technique='contracts + loop invariants over go/ssa, z3/cvc5 (govc) for the scanner; bounded exhaustive stand-in for the trie'),
+   text=("Contract-based deductive proof of every function of the topic store by ONE-STEP contracts (core): each function is specified by what it does at its own trie node and by the recursive calls it makes; that these steps compose to the MQTT 4.7 matching relation over whole filters and histories is an induction over the levels that is argued, not machine-checked, and is additionally exercised by a BOUNDED stand-in (labelled bounded, never counted as proved). "
+         "Proved for all inputs, all trie shapes and all map contents (map iteration modelled with a ghost set of visited keys; type invariants: every child link leads to a constructed node, subscriber and QoS lists have equal length, result slices never share storage with node lists): "
+         "nextTopicLevel splits at the first '/', never returns a level containing '/', rejects '#'/'+' that do not occupy a whole level, accepts '#' only last, refuses a leading '$', and makes progress; "
+         "sinsert at the last level replaces the QoS of the first entry equal to the subscriber and changes nothing else, or appends (subscriber, QoS) when there is none - never a second entry - and otherwise descends exactly once into the child for the next level (created if absent) with the remaining levels and the same QoS and subscriber; "
+         "sremove at the last level removes all entries (nil) or exactly the first equal entry keeping the order and the QoS of all others, reports a missing entry without changing anything, otherwise descends into the existing child; "
+         "matchQos appends every entry of a node in order with min(publish QoS, entry QoS) and touches neither the node nor earlier results; smatch at the last level takes the node's entries and those of its '#' child, otherwise looks at every child exactly once - '#' child: its entries; '+' child and the child named like the level: searched with the remaining levels; any other child: untouched; "
+         "rmatch/allRetained likewise for retained messages ('#': everything at or below; '+': every child; literal: that child); the MemTopics methods run these from the root with the request's arguments under the right lock on every path, refuse an invalid QoS or nil subscriber before touching the store, and grant min(requested, MaxQosAllowed). "
+         "Subscriber identity (reflection) is an uninterpreted relation. The bounded stand-in runs the real MemTopics exhaustively over filters of 1..3 levels over {a,b,+,#}, topics of 1..3 levels over {a,b}, two or three subscribers, subscribe/unsubscribe/re-subscribe, publish QoS 0..2 and retained insert/replace/clear (about 720000 cases) against the MQTT 4.7 relation. "
+         "A known deviation pinned by the repository's own test (an empty first level is returned as '+') is outside the obligations; pruning of empty nodes is checked only by the bounded stand-in."),
+   design='DESIGN.md §4 C06', technique='one-step contracts on the recursive trie functions, map type invariants, modelled map iteration, loop invariants; VCs over go/ssa discharged by z3/cvc5 (govc); bounded exhaustive stand-in for the composition'),
  'C01': dict(level='proof',
    text=("Contract-based deductive proof of the fan-out step only (core): onPublish calls every subscriber the topic store returned exactly once, in the store's order (ghost call counter, loop invariant), and at each call the message carries the QoS the store computed for that subscriber whenever that value is a valid QoS; "
          "it counts as one hand-over of exactly that message object. That the store returns exactly the matching subscriptions with min(publish QoS, granted QoS) is the trusted interface contract of the topic store (the trie is outside the generator's subset, see C06); "
